@@ -21,9 +21,6 @@ Variable p : program.
 Variable rk : node -> nat.
 Hypothesis Hrk : forall n e d, alookup p n = Some e -> In d (expr_reads e) -> (rk d < rk n)%nat.
 
-Lemma StkOk_nil : forall n, StkOk rk [] n.
-Proof. intros n m []. Qed.
-
 (** one operation keeps the invariant (a session must not have run out of fuel) *)
 Lemma cstep_inv : forall fuel s o s' r inp,
   CInv p inp s -> cstep_f fuel p s o = (s', r) ->
@@ -39,14 +36,14 @@ Proof.
     cbn [apply_op]. eapply (CInv_commit p rk Hrk inp (cset_log s [])); eauto. apply CInv_log. exact HI.
   - unfold cstep_f in H. cbn [apply_op].
     destruct (cquery p fuel [] CCUser None n (cset_log s [])) as [[[o fr] s1]| | |] eqn:Eq.
-    + destruct (proj1 (sound_all p rk Hrk fuel) inp [] CCUser None n _ o fr s1
-                  (CInv_log p inp s [] HI) (StkOk_nil n) Eq) as [HI1 _].
+    + destruct (proj1 (sound_all_rk p rk Hrk fuel) inp [] CCUser None n _ o fr s1
+                  (CInv_log p inp s [] HI) (RStkOk_nil rk n) Eq) as [HI1 _].
       destruct o; inversion H; subst; exact HI1.
     + inversion H. subst. apply CInv_log. exact HI.
     + inversion H. subst. apply CInv_log. exact HI.
     + inversion H. subst. apply CInv_log. exact HI.
   - cbn in H. inversion H. subst. cbn [apply_op]. apply CInv_log. exact HI.
-  - cbn in H. inversion H. subst. cbn [apply_op]. apply CInv_log. exact HI.
+  - cbn in H. inversion H. subst. cbn [apply_op]. apply CInv_restart. apply CInv_log. exact HI.
 Qed.
 
 (** a value answered by a query is the from-scratch value *)
@@ -55,8 +52,8 @@ Lemma cstep_query_sound : forall fuel s n s' r inp z,
 Proof.
   intros fuel s n s' r inp z HI H Hr. unfold cstep_f in H.
   destruct (cquery p fuel [] CCUser None n (cset_log s [])) as [[[o fr] s1]| | |] eqn:Eq.
-  - destruct (proj1 (sound_all p rk Hrk fuel) inp [] CCUser None n _ o fr s1
-                (CInv_log p inp s [] HI) (StkOk_nil n) Eq) as [HI1 [i (Hi & Hv & Ho & _)]].
+  - destruct (proj1 (sound_all_rk p rk Hrk fuel) inp [] CCUser None n _ o fr s1
+                (CInv_log p inp s [] HI) (RStkOk_nil rk n) Eq) as [HI1 [i (Hi & Hv & Ho & _)]].
     subst o. inversion H. subst. cbn [r_out] in Hr. inversion Hr. subst.
     eapply ci_ver_sound; eauto.
   - inversion H. subst. discriminate.
@@ -295,8 +292,8 @@ Lemma cstep_query_logp : forall fuel s n s' x inp m,
 Proof.
   intros fuel s n s' x inp m HI H Hm. unfold cstep_f in H.
   destruct (cquery p fuel [] CCUser None n (cset_log s [])) as [[[o fr] s1]| | |] eqn:Eq.
-  - pose proof (proj1 (just_all p rk Hrk fuel) inp [] CCUser None n _ o fr s1
-                  (CInv_log p inp s [] HI) (StkOk_nil rk n) Eq) as L.
+  - pose proof (proj1 (just_all_rk p rk Hrk fuel) inp [] CCUser None n _ o fr s1
+                  (CInv_log p inp s [] HI) (RStkOk_nil rk n) Eq) as L.
     assert (E : s' = s1 /\ r_execs x = rev (cs_log s1)) by (destruct o; inversion H; subst; auto).
     destruct E as [-> E]. rewrite E in Hm. apply in_rev in Hm.
     apply (L (cs_log s1)); [cbn [cset_log cs_log]; rewrite app_nil_r; reflexivity|exact Hm].
@@ -430,8 +427,8 @@ Proof.
       inversion H; subst; try (eapply SInv_nodes; [|exact HS1]; reflexivity).
     eapply SInv_nodes; [|exact HS1]. rewrite (cpropagate_nodes _ _ _ _ Ep). reflexivity.
   - unfold cstep_f in H. cbn [apply_op].
-    pose proof (proj1 (prog_all p rk Hrk Hnog Htargets inp fuel) [] CCUser None n (cset_log s [])
-                  (SInv_nodes p inp s (cset_log s []) eq_refl HS) (StkOk_nil rk n)) as P.
+    pose proof (proj1 (prog_all p Hnog Htargets (RStkOk rk) (RStkOk_notin rk) (RStkOk_push p rk Hrk) inp fuel) [] CCUser None n (cset_log s [])
+                  (SInv_nodes p inp s (cset_log s []) eq_refl HS) (RStkOk_nil rk n)) as P.
     destruct (cquery p fuel [] CCUser None n (cset_log s [])) as [[[o fr] s1]| | |] eqn:Eq.
     + destruct P as [HS1 _]. destruct o; inversion H; subst; exact HS1.
     + inversion H. subst. eapply SInv_nodes; [|exact HS]. reflexivity.
@@ -447,8 +444,8 @@ Lemma cstep_query_fine : forall fuel s n s' r inp,
   (exists z, r_out r = RValue z) \/ r_out r = RFuel.
 Proof.
   intros fuel s n s' r inp HS Hc Hk Hp H. unfold cstep_f in H.
-  pose proof (proj1 (prog_all p rk Hrk Hnog Htargets inp fuel) [] CCUser None n (cset_log s [])
-                (SInv_nodes p inp s (cset_log s []) eq_refl HS) (StkOk_nil rk n)) as P.
+  pose proof (proj1 (prog_all p Hnog Htargets (RStkOk rk) (RStkOk_notin rk) (RStkOk_push p rk Hrk) inp fuel) [] CCUser None n (cset_log s [])
+                (SInv_nodes p inp s (cset_log s []) eq_refl HS) (RStkOk_nil rk n)) as P.
   destruct (cquery p fuel [] CCUser None n (cset_log s [])) as [[[o fr] s1]| | |] eqn:Eq.
   - destruct P as [_ [i (_ & Ho & _)]]. subst o. inversion H. subst. left. eexists. reflexivity.
   - inversion H. subst. right. reflexivity.
